@@ -127,6 +127,7 @@ type World struct {
 	OldPrivs  [][]byte
 	Locked    bool
 	Watching  bool // converted to watching-only
+	Neutered  bool // master HD private key removed (NeuterRootKey)
 	Accts     map[string]*Acct
 	LastAcct  map[waddrmgr.KeyScope]uint32
 	Issued    []*Issued
